@@ -628,7 +628,7 @@ def check_c08_body(v, d, quick, fpipe):
         "samples": [brief_r(e) for e in picks],
     })
     v.assumptions += [
-        "goroutines are counted by stack dumps filtered to frames inside github.com/google/badwolf/, after settling (blocked in three samples over >= 30 ms, or a lexer blocked on its channel with no other engine goroutine)",
+        "goroutines are counted by stack dumps filtered to frames inside github.com/google/badwolf/, after settling (every goroutine of the run blocked on a channel / lock in >= 3 samples over >= 300 ms, or a lexer blocked on its channel with no other engine goroutine; still running after 3 s also counts)",
         "watchdog 10 s per run, re-run alone once before a Timeout counts; a child process killed by the engine is re-run alone with the case announced on stderr",
         "memory stores only (storage/memory); driver failures are C20",
     ]
